@@ -10,7 +10,7 @@ from sa.targets_model import Target, kind_arities, known_names
 from sa.oracles import targets as O
 from sa.paths import enumerate_paths, calls_in, call_name, dotted, event_has_call
 from sa.defuse import origins
-from rules.C05 import check_kind_templates, check_constants, check_make_constant
+from rules.C05 import check_kind_templates, check_constants, check_make_constant, check_printer_state_not_rebound
 
 
 def run(repo, tier):
@@ -28,6 +28,7 @@ def run(repo, tier):
     r.rule("R6.3", "StableHLO printer: a $ref is bound exactly once, before it is referenced; arguments are bound before the body", floor=3)
     r.rule("R6.4", "constants: named constants denote their names; the like operand is a bound $ref/variable or a printed sub-tree", floor=8)
     r.rule("R6.5", "no name derived from process-global state reaches the emitted text", floor=1)
+    r.rule("R6.6", "the XLA client printer and its C++ constant printer share one statement list and one set of bound names for the whole function", floor=3)
 
     arities = kind_arities(repo)
     const_names = known_names(repo, "known_constant_names")
@@ -65,6 +66,8 @@ def run(repo, tier):
         )
         og = origins(p.exit_node.value, p.events, len(p.events))
         r.ob("R6.4", "targets/xla_client.py::Printer.make_constant typed by like", any(k == "name" and v == like for k, v in og), "ScalarLike lost its like operand", loc(X.rel, p.exit_node))
+
+    check_printer_state_not_rebound(r, repo, "R6.6")
 
     # ---------------------------------------------------------------- stablehlo tables
     S = Target(repo, "stablehlo")
